@@ -88,8 +88,13 @@ class Main(S.DispatchStream):
                 return GN.req("ok", ["c%d" % counter[0]], rng.choice(GN.REAL_IDS), rng.random() < 0.5)
             if r < 0.6:
                 return GN.req("fail", ["c%d" % counter[0]], rng.choice(GN.REAL_IDS), True)
-            if r < 0.8:
+            if r < 0.75:
                 return rng.choice([5, {"jsonrpc": "2.0"}, {"jsonrpc": "2.0", "id": 3, "method": 7}])
+            if r < 0.85:
+                # an entry that is itself an array (of notifications, of calls, empty) is ONE invalid entry: nothing in it runs
+                # and the entries after it are handled as usual
+                inner = [GN.req("ok", ["nested%d" % counter[0]], GN.ABSENT, True) for _ in range(rng.randint(0, 2))]
+                return inner + ([GN.req("ok", ["nested-call"], 9, True)] if rng.random() < 0.3 else [])
             return note()
 
         pools = [(0, True), (1, True), (2, True), (3, True), (1, False), (3, False)]
@@ -335,7 +340,9 @@ class Overlap(pipeline.Stream):
     check_fn = "registry_check"
     shard = 200
 
-    SLOW = ["note-absent", "note-null", "note-empty", "note-in-batch", "call", "note-fail", "call-fail"]
+    # "...reenter": no second thread; the slow request's method itself dispatches the other request on the same dispatcher
+    SLOW = ["note-absent", "note-null", "note-empty", "note-in-batch", "call", "note-fail", "call-fail", "call-reenter", "note-reenter"]
+    PREFIX = "C04"
     FAST = ["call-ok", "call-echo", "call-fail", "call-nope", "note-ok", "batch"]
 
     def setup(self):
@@ -353,7 +360,8 @@ class Overlap(pipeline.Stream):
         slow, fast = case["slow"], case["fast"]
         gate = "gatefail" if slow.endswith("fail") else "gate"
         if slow.startswith("note"):
-            rid = {"note-absent": GN.ABSENT, "note-null": None, "note-empty": "", "note-in-batch": GN.ABSENT, "note-fail": None}[slow]
+            rid = {"note-absent": GN.ABSENT, "note-null": None, "note-empty": "", "note-in-batch": GN.ABSENT, "note-fail": None,
+                   "note-reenter": None}[slow]
             if not v2 and rid is GN.ABSENT:
                 rid = None           # a 1.0-form request must carry an id member to be well-formed
             e = GN.req(gate, ["slow-arg"], rid, v2)
@@ -377,16 +385,27 @@ class Overlap(pipeline.Stream):
         rt = K.Runtime(dc)
         entered, release = threading.Event(), threading.Event()
 
+        inner = []          # index range of the events logged by the request dispatched from inside the slow method
+
         def gated(cid):
             def fn(*a, **k):
-                entered.set()
-                release.wait(20)
+                if case["slow"].endswith("reenter"):
+                    n0 = len(rt.events)
+                    try:
+                        res["fast"] = ("ok", rt.disp._marshaled_dispatch(fb))
+                    except Exception as ex:       # noqa
+                        res["fast"] = ("raise", ex)
+                    inner.append((n0, len(rt.events)))
+                else:
+                    entered.set()
+                    release.wait(20)
                 return rt.fns[cid](*a, **k)
             return fn
         rt.disp.register_function(gated(GN.ECHO), "gate")
         rt.disp.register_function(gated(GN.FAIL), "gatefail")
         sb, fb = self._bodies(case)
         res = {}
+        reenter = case["slow"].endswith("reenter")
 
         def slow():
             try:
@@ -396,30 +415,49 @@ class Overlap(pipeline.Stream):
         th = threading.Thread(target=slow, daemon=True)
         try:
             th.start()
-            if not entered.wait(20):
-                return {"error": "the slow request never reached its method"}
-            try:
-                res["fast"] = ("ok", rt.disp._marshaled_dispatch(fb))
-            except Exception as ex:       # noqa
-                res["fast"] = ("raise", ex)
-            release.set()
+            if not reenter:
+                if not entered.wait(20):
+                    return {"error": "the slow request never reached its method"}
+
+                def fast():
+                    try:
+                        res["fast"] = ("ok", rt.disp._marshaled_dispatch(fb))
+                    except Exception as ex:       # noqa
+                        res["fast"] = ("raise", ex)
+                tf = threading.Thread(target=fast, daemon=True)
+                rt.main_thread = tf                 # the events of the fast request are those logged from this thread
+                tf.start()
+                tf.join(3)
+                # (a dispatcher that serialises requests makes the fast one wait for the slow one: allowed, it then finishes
+                # once the gate is open)
+                res["serialised"] = tf.is_alive()
+                release.set()
+                tf.join(20)
+                if tf.is_alive():
+                    return {"error": "the second request did not finish although the first one was released"}
             th.join(20)
         finally:
             release.set()
             rt.close()
         with rt.lock:
             evs = list(rt.events)
-        return {"slow": res.get("slow"), "fast": res.get("fast"), "bodies": (sb, fb),
-                "slow_log": [e for (is_main, e) in evs if not is_main], "fast_log": [e for (is_main, e) in evs if is_main]}
+        if reenter:
+            lo, hi = inner[0] if inner else (0, 0)
+            slow_log = [e for i, (_, e) in enumerate(evs) if not lo <= i < hi]
+            fast_log = [e for i, (_, e) in enumerate(evs) if lo <= i < hi]
+        else:
+            slow_log = [e for (is_main, e) in evs if not is_main]
+            fast_log = [e for (is_main, e) in evs if is_main]
+        return {"slow": res.get("slow"), "fast": res.get("fast"), "bodies": (sb, fb), "slow_log": slow_log, "fast_log": fast_log}
 
     def oracle(self, case, obs):
         if "error" in obs:
-            return ("C04:overlap-harness", obs["error"])
+            return (self.PREFIX + ":overlap-harness", obs["error"])
         for who in ("slow", "fast"):
             r = obs[who]
             body = json.loads(obs["bodies"][0 if who == "slow" else 1])
             if r is None or r[0] != "ok":
-                return ("C04:dispatcher-raised", "%s request %r: %r" % (who, body, r))
+                return (self.PREFIX + ":dispatcher-raised", "%s request %r: %r" % (who, body, r))
             entries = body if isinstance(body, list) else [body]
             notes = [e for e in entries if isinstance(e, dict) and ("id" not in e or e["id"] in (None, ""))]
             answered = [e for e in entries if e not in notes]
@@ -427,16 +465,16 @@ class Overlap(pipeline.Stream):
             got = [] if not text else json.loads(text)
             got = got if isinstance(got, list) else [got]
             if len(got) != len(answered):
-                return ("C04:notification-answered", "%s request %r (%d notification(s)) while the other request was in progress: reply %r" % (
+                return (self.PREFIX + ":" + ("notification-answered" if self.PREFIX == "C04" else "response-count"), "%s request %r (%d notification(s)) while the other request was in progress: reply %r" % (
                     who, body, len(notes), text))
             for g, e in zip(got, answered):
                 if not isinstance(g, dict) or g.get("id") != e["id"]:
-                    return ("C04:reply-id-of-another-request", "%s request %r answered %r" % (who, body, text))
+                    return (self.PREFIX + ":" + ("reply-id-of-another-request" if self.PREFIX == "C04" else "id-not-echoed"), "%s request %r answered %r" % (who, body, text))
             log = obs[who + "_log"]
             ncalls = len([e for e in log if e[0] == "call"])
             want = len([e for e in entries if e.get("method") != "nope"])
             if ncalls != want:
-                return ("C04:not-executed-exactly-once", "%s request %r: %d invocation(s)" % (who, body, ncalls))
+                return (self.PREFIX + ":not-executed-exactly-once", "%s request %r: %d invocation(s)" % (who, body, ncalls))
         return None
 
     def encode(self, case, obs):
